@@ -247,6 +247,8 @@ Inductive event :=
 | EExit
 | EAccess (x : name)              (* scope.access(Name(id=x)) *)
 | EAssign (x : name)              (* scope.assign(Name(id=x)) *)
+| EAssignSame                    (* _storeize: scope.assign(Name(id = n.id)) where n is the node just created by
+                                    compiling the target symbol -- its name as already resolved by scope.access *)
 | EAssignNode (l : nat) (x : name) (* Result.rename: an existing Name node gets id x, then scope.assign(node) *)
 | EDefine (x : name)
 | EDecl (root : decl_root) (names : list name)
@@ -381,6 +383,10 @@ Definition step (st : state) (e : event) : state :=
         let '(stk, c) := access (st_stack st) (st_cells st ++ [[x]]) (NR l 0) in upd st stk c
     | EAssign x =>
         let l := length (st_cells st) in
+        let '(stk, c) := assign (st_stack st) (st_cells st ++ [[x]]) (NR l 0) in upd st stk c
+    | EAssignSame =>
+        let l := length (st_cells st) in
+        let x := name_of (st_cells st) (NR (l - 1) 0) in
         let '(stk, c) := assign (st_stack st) (st_cells st ++ [[x]]) (NR l 0) in upd st stk c
     | EAssignNode l x =>
         let '(stk, c) := assign (st_stack st) (set_cell (st_cells st) l [x]) (NR l 0) in upd st stk c
